@@ -125,7 +125,7 @@ pub fn check_literal(_ctx: &Ctx, v: &serde_json::Value) -> CaseReport {
         }
         Some("fixture-ir") => {
             let scratch = Scratch::new(&_ctx.work);
-            compare_ir(&mut rep, &_ctx.repo.join(v["fixture"].as_str().unwrap_or("")), &BuildOpts::default(), scratch.path());
+            compare_ir(&mut rep, &_ctx.repo.join(v["fixture"].as_str().unwrap_or("")), &BuildOpts::default(), scratch.path(), None);
         }
         _ => rep.fail("bad-literal", "unknown kind"),
     }
@@ -186,7 +186,10 @@ pub fn check_build(ctx: &Ctx, genome: &[u16]) -> CaseReport {
     if ctx.dry { for (k, v) in files { rep.artifacts.push((k, v.into_bytes())); } return rep; }
     let scratch = Scratch::new(&ctx.work);
     let ds = ufo::write_tree(scratch.path(), &files).expect("write tree");
-    let n_kern = compare_ir(&mut rep, &ds, &opts, scratch.path());
+    let reuse = og.chance(1, 3);
+    let other = ctx.repo.join("resources/testdata/wght_var.designspace");
+    if reuse { rep.class("reused-build-directory"); }
+    let n_kern = compare_ir(&mut rep, &ds, &opts, scratch.path(), if reuse { Some(other.as_path()) } else { None });
     let plainname = |s: &str| s.chars().all(|c| c.is_ascii_lowercase() || c.is_ascii_digit() || c == '.' || c == '_') && !s.starts_with('.');
     rep.nontrivial = f.glyphs.iter().any(|g| !plainname(&g.name)) || n_kern >= 2;
     if n_kern >= 2 { rep.class("several-kerning-instances"); }
@@ -196,11 +199,16 @@ pub fn check_build(ctx: &Ctx, genome: &[u16]) -> CaseReport {
 }
 
 /// build `ds` without and with IR emission (fresh dir under `scratch`) and compare; returns the number of kerning instances
-pub fn compare_ir(rep: &mut CaseReport, ds: &Path, opts: &BuildOpts, scratch: &Path) -> usize {
+pub fn compare_ir(rep: &mut CaseReport, ds: &Path, opts: &BuildOpts, scratch: &Path, prebuild: Option<&Path>) -> usize {
     let rep: &mut CaseReport = rep;
     let files: BTreeMap<String, String> = BTreeMap::new();
     let plain = compile_path(ds, opts);
     let ir_dir = scratch.join("ir");
+    // a build directory that already holds the (larger) output of an earlier build of another source
+    if let Some(other) = prebuild {
+        let o = BuildOpts { ir_dir: Some(ir_dir.clone()), ..BuildOpts::default() };
+        let _ = std::panic::catch_unwind(std::panic::AssertUnwindSafe(|| { if let Ok(inp) = fontc::Input::new(other) { if let Ok(src) = inp.create_source() { let _ = fontc::verif::build(src, &o.to_options()); } } }));
+    }
     let with_ir = BuildOpts { ir_dir: Some(ir_dir.clone()), ..opts.clone() };
     let built = std::panic::catch_unwind(std::panic::AssertUnwindSafe(|| -> Result<_, String> {
         let input = fontc::Input::new(ds).map_err(|e| e.to_string())?;
